@@ -38,6 +38,25 @@ def reference(start, nbytes, mem_start):
     return T.op("and", 1, nowrap, T.op("or", 1, T.op("or", 1, stack, mem), mbuf))
 
 
+def memflags_rule(rep, F):
+    """R11.m (also an obligation of C04: alias / readonly / notrap flags let Cranelift reorder or drop accesses, which
+    changes results as well as trapping behaviour)"""
+    rm = rep.rule("R11.m", "memory operations carry plain MemFlags (only new / endianness): no notrap, readonly, can_move, aligned, trusted or heap/table/vmctx flags that would let Cranelift move or drop an access relative to its bounds-check trap", floor=1)
+    flag_calls = {}
+    for p, fn in F.fns.items():
+        if not fn.get("thir") or not p.startswith("cranelift::"):
+            continue
+        for x in walk(fn["thir"]["body"]):
+            cp = callee_path(x) or "" if x.get("k") == "call" else ""
+            if "MemFlags" in cp:
+                flag_calls.setdefault(cp.split("::")[-1], set()).add(p)
+    allowed = {"new", "set_endianness", "with_endianness", "endianness"}
+    extra = sorted(k for k in flag_calls if k not in allowed)
+    rep.ob(rm, "memflags", bool(flag_calls) and not extra, "MemFlags constructors / modifiers used by the Cranelift compiler",
+           expected=sorted(allowed), found={k: sorted(v) for k, v in flag_calls.items()})
+
+
+
 def run(rep, tier):
     cx = Ctx(rep, "cranelift")
     rep.where_by_opcode = cx.opcode_where(cx.roles.cranelift_translate())
@@ -110,20 +129,7 @@ def run(rep, tier):
     rep.ob(rb, "owners", ok, "functions issuing load / store / atomic operations", expected="each of them calls the bounds-check emitter (the per-access guard is R11.a)",
            found={k: v for k, v in owners.items()})
 
-    rm = rep.rule("R11.m", "memory operations carry plain MemFlags (only new / endianness): no notrap, readonly, can_move, aligned, trusted or heap/table/vmctx flags that would let Cranelift move or drop an access relative to its bounds-check trap", floor=1)
-    flag_calls = {}
-    for p, fn in F.fns.items():
-        if not fn.get("thir") or not p.startswith("cranelift::"):
-            continue
-        for x in walk(fn["thir"]["body"]):
-            cp = callee_path(x) or "" if x.get("k") == "call" else ""
-            if "MemFlags" in cp:
-                flag_calls.setdefault(cp.split("::")[-1], set()).add(p)
-    allowed = {"new", "set_endianness", "with_endianness", "endianness"}
-    extra = sorted(k for k in flag_calls if k not in allowed)
-    rep.ob(rm, "memflags", bool(flag_calls) and not extra, "MemFlags constructors / modifiers used by the Cranelift compiler",
-           expected=sorted(allowed), found={k: sorted(v) for k, v in flag_calls.items()})
-
+    memflags_rule(rep, F)
     rd = rep.rule("R11.d", "prelude: region variables are (param, param+len) and the 512-byte stack slot", floor=1)
     ok, found = _prelude(cx)
     rep.ob(rd, "prelude", ok, "definitions of mem/mbuf/stack bounds in the function prelude",
